@@ -240,8 +240,8 @@ def worker(arg):
 
 def check(tier, seed):
     t = pc.trees("plain", "san")
-    n = 400 if tier == "quick" else 3000
-    nsan = 24 if tier == "quick" else 160
+    n = 400 if tier == "quick" else 1600
+    nsan = 24 if tier == "quick" else 96
     res = Result("exploration")
     res.rule = RULE
     base = seed * 1000000 + (0 if tier == "quick" else 50000) + 90000
